@@ -5,6 +5,7 @@ import (
 	"math/rand"
 	"sort"
 	"strings"
+	"sync"
 
 	"github.com/microcosm-cc/bluemonday"
 
@@ -18,6 +19,7 @@ type Env struct {
 	Spec *spec.Spec
 	Pol  *bluemonday.Policy
 
+	mu        sync.Mutex // guards the lazily filled caches below (an Env may be shared by workers)
 	elCands   []string
 	attrCands map[string][]string
 }
@@ -38,6 +40,8 @@ var allElementVocab = func() []string {
 // ElementCandidates: explicit names, vocabulary names matched by a pattern
 // (these are the interesting ones) and a sample of everything else.
 func (e *Env) ElementCandidates() []string {
+	e.mu.Lock()
+	defer e.mu.Unlock()
 	if e.elCands != nil {
 		return e.elCands
 	}
@@ -73,6 +77,8 @@ func (e *Env) ElementCandidates() []string {
 }
 
 func (e *Env) ruleAttrs(el string) []string {
+	e.mu.Lock()
+	defer e.mu.Unlock()
 	if v, ok := e.attrCands[el]; ok {
 		return v
 	}
